@@ -470,7 +470,14 @@ class ProgGen:
     def string(self, interp=True):
         body = self.rng.choice(["hello", "a b  c", "x", "", "// not a comment", "/* neither */", "it's", "{", "tab\there"])
         if body == "{":
-            body = "lb" if not (interp and self.consts) else "v={%s}" % self.rng.choice(self.consts)
+            if not (interp and self.consts):
+                body = "lb"
+            else:
+                # trivia is accepted between `{` and the identifier
+                lead = self.rng.choice(["", "", " ", "  ", "/* i%d */" % self.rng.randrange(100) if "comments" in self.cls else " "])
+                if lead:
+                    self.bump("interpolation_trivia")
+                body = "v={%s%s}" % (lead, self.rng.choice(self.consts))
         if "non_ascii" in self.cls and self.rng.random() < 0.4:
             body += "".join(self.rng.choice(NON_ASCII) for _ in range(self.rng.randrange(1, 16)))
             self.bump("non_ascii_strings")
@@ -610,6 +617,11 @@ class ProgGen:
         for k, v in pairs:
             items += [G.m if "newline_gaps" in self.cls else G.W, k, G.m if self.rng.random() < 0.1 else G.w, "=",
                       G.m if self.rng.random() < 0.1 else G.w] + v
+        if self.rng.random() < 0.25:
+            # a nested config block as the value of a pair (an unknown key is a codegen diagnostic, the same before and after)
+            self.bump("nested_config")
+            items += [G.m if "newline_gaps" in self.cls else G.W, "opts", G.w, "=", G.m if self.rng.random() < 0.4 else G.w, "{",
+                      G.m, "k", G.w, "=", G.w, "1", G.m, "}"]
         return items + [G.m, "}"]
 
     def segment(self, depth):
